@@ -229,6 +229,68 @@ func runC02(c *Ctx) {
 			}
 		}
 	}
+	// "an error exactly when the frame is truncated", fixed-header part: the constant minimum length that IsValid
+	// demands is the size of the protocol's fixed header (C01 proves it is not smaller than what the getters read;
+	// a larger constant refuses complete headers). Sizes from the RFCs; views outside the table get no verdict.
+	minLen := map[string]int64{
+		"Ether": 14, "ARP": 28, "IP4": 20, "IP6": 40, "UDP": 8, "TCP": 20, "ICMP": 8, "ICMPEcho": 8,
+		"ICMP6NeighborAdvertisement": 24, "ICMP6NeighborSolicitation": 24, "ICMP6Redirect": 40,
+		"ICMP6RouterAdvertisement": 16, "ICMP6RouterSolicitation": 8, "DNS": 12, "DHCP4": 240, "LLC": 3,
+	}
+	r.Rule("min-length", "IsValid demands exactly the fixed header size of the protocol", len(minLen))
+	var noTable []string
+	for _, fn := range c.P.LibFunctions() {
+		if fn.Name() != "IsValid" || fn.Signature.Recv() == nil || fn.Pkg == nil || fn.Pkg.Pkg.Name() != "packet" {
+			continue
+		}
+		nt, ok := fn.Signature.Recv().Type().(*types.Named)
+		if !ok {
+			continue
+		}
+		want, inTable := minLen[nt.Obj().Name()]
+		if !inTable {
+			noTable = append(noTable, nt.Obj().Name())
+			continue
+		}
+		// the constant guards on len(receiver): reject ⇔ 0 - len(recv) ≥ K  ⇔  len(recv) < 1-K
+		var got []int64
+		var at ssa.Instruction
+		for _, g := range tightGuards(fn) {
+			if g.S != ssa.Value(fn.Params[0]) || len(g.L.coef) != 0 {
+				continue
+			}
+			got = append(got, 1-g.K)
+			at = g.If
+		}
+		st := core.Proved
+		det := ""
+		pos := c.P.Pos(fn.Pos())
+		switch {
+		case len(got) == 0:
+			st, det = core.Violated, "IsValid has no constant minimum-length test on its receiver (the guard was not recognised or is missing)"
+		default:
+			max := got[0]
+			for _, v := range got {
+				if v > max {
+					max = v
+				}
+			}
+			pos = c.P.Pos(core.PosOf(at))
+			if max != want {
+				st = core.Violated
+				det = fmt.Sprintf("IsValid demands at least %d bytes; the fixed header of %s is %d bytes: ", max, nt.Obj().Name(), want)
+				if max > want {
+					det += "complete headers shorter than that are refused as truncated"
+				} else {
+					det += "a truncated header is accepted"
+				}
+			}
+		}
+		r.Add(core.Obligation{Rule: "min-length", Key: "min-length " + nt.Obj().Name() + ".IsValid", Func: core.FuncName(fn), Pos: pos, Status: st,
+			Basis: fmt.Sprintf("constant length guard = %d", want), Detail: det})
+	}
+	sort.Strings(noTable)
+	r.Extra["isvalid_without_reference_size"] = noTable
 }
 
 // ---- Parse decision table (Appendix C.1) ----
